@@ -815,11 +815,13 @@ class WorkflowConductor(object):
         if not in_ctx_idxs:
             in_ctx_idxs = [0]
 
+        # Copy the list of contexts and the back references so the task state entry
+        # does not share these containers with the staged task they are taken from.
         task_state_entry = {
             "id": task_id,
             "route": route,
-            "ctxs": {"in": in_ctx_idxs},
-            "prev": prev or {},
+            "ctxs": {"in": json_util.deepcopy(in_ctx_idxs)},
+            "prev": json_util.deepcopy(prev) if prev else {},
             "next": {},
         }
 
@@ -927,8 +929,8 @@ class WorkflowConductor(object):
             self.workflow_state.add_staged_task(
                 task_id,
                 route,
-                ctxs=task_state_entry["ctxs"]["in"],
-                prev=task_state_entry["prev"],
+                ctxs=json_util.deepcopy(task_state_entry["ctxs"]["in"]),
+                prev=json_util.deepcopy(task_state_entry["prev"]),
                 retry=task_state_entry["retry"],
                 ready=True,
             )
